@@ -101,6 +101,67 @@ func registerExecModel(e *Engine) {
 		return one(st, nil)
 	})
 
+	// oklog/run.Group.Run: the actors are executed one after the other (no interleaving): the first
+	// actor's result is passed to every interrupt function, then the remaining actors run.
+	e.reg("(*github.com/oklog/run.Group).Run", func(c *CallCtx, st *State, args []Value) []Outcome {
+		en := c.E
+		g := st.Load(args[0].(Ptr)).(*StructV)
+		actors := en.sliceElems(st, g.F[0])
+		if len(actors) == 0 {
+			return one(st, nilErr)
+		}
+		type item struct {
+			st    *State
+			first Value
+		}
+		cur := []item{{st: st}}
+		var outs []Outcome
+		for i, a := range actors {
+			av := a.(*StructV)
+			var next []item
+			for _, it := range cur {
+				for _, o := range en.callValue(it.st, av.F[0], nil, nil, c.Frame) {
+					if o.Panic != nil {
+						outs = append(outs, o)
+						continue
+					}
+					first := it.first
+					if i == 0 {
+						first = o.Ret
+						// interrupt everybody with the first result
+						s2 := o.St
+						ok := true
+						for _, b := range actors {
+							ro := en.callValue(s2, b.(*StructV).F[1], []Value{first}, nil, c.Frame)
+							if len(ro) != 1 || ro[0].Panic != nil {
+								outs = append(outs, ro...)
+								ok = false
+								break
+							}
+							s2 = ro[0].St
+						}
+						if !ok {
+							continue
+						}
+						o.St = s2
+					}
+					next = append(next, item{st: o.St, first: first})
+				}
+			}
+			cur = next
+		}
+		for _, it := range cur {
+			outs = append(outs, Outcome{St: it.st, Ret: it.first})
+		}
+		return outs
+	})
+	e.reg(z+"NewContext", func(c *CallCtx, st *State, args []Value) []Outcome {
+		en := c.E
+		t := types.NewPointer(en.typeOf(ZzvPath, "Ctx"))
+		p := en.alloc(st, &StructV{F: []Value{Iface{}}})
+		return one(st, Tuple{Iface{T: t, V: p}, Func{Fn: en.FindFunc(ZzvPath, "NoopCancel")}})
+	})
+	e.reg(z+"CancelAfter", noop)
 	e.reg("path/filepath.EvalSymlinks", func(c *CallCtx, st *State, args []Value) []Outcome {
 		en := c.E
 		p := en.pathArg(args[0], "EvalSymlinks")
